@@ -16,6 +16,8 @@ the streaming connection; one `budget:over` writer per `WriteTo` call. Answered 
 summary derived from the event log (held | stored | closed | dead) and which connection
 serves the next DoStream.
 `!next <id>` — oracle line: the next streaming command receives its own payload.
+`!recycled <entry> <ncmd> <hex> <calls>` — oracle line: once the stream has no next reply the wire
+has been handed back exactly once (`once`), before that it is held (`held`).
 -/
 open Rv Rv.StreamTo Rv.ResultStream
 
@@ -81,6 +83,14 @@ def e2e (k : Entry) (late : Bool) (ncmd : Nat) (bs : List UInt8) (calls : List (
 def step (_ : Unit) (ws : List String) : Unit × String :=
   match ws with
   | ["!next", _] => ((), "own")
+  | ["!recycled", en, nc, h, cs] =>
+    -- specification: a stream that has no next reply has handed its wire back exactly once;
+    -- one that still has a next reply holds it
+    match parseEntry en, nc.toNat?, Hex.decode h, (cs.splitOn ",").mapM parseCall with
+    | some k, some n, some bs, some calls =>
+      let (s, _, _) := session 524288 (start k n) bs calls []
+      ((), if s.hasNext then "held" else "once")
+    | _, _, _, _ => ((), "bad-op")
   | ["e2e", en, nc, h, cs] =>
     match parseEntry en, nc.toNat?, Hex.decode h, (cs.splitOn ",").mapM parseCall with
     | some k, some n, some bs, some calls => ((), e2e k (en == "ctxLate") n bs calls)
